@@ -49,7 +49,8 @@ DOMS = ["a", "b", "c", "d", "e", "sync"]
 def gen_recipe(rng):
     nsig = rng.randint(3, 10)
     names = ["x", "y", "z", "x", "q", "state", "clk", "o"]
-    sigs = [{"name": rng.choice(names), "width": rng.choice([1, 2, 4, 8])} for _ in range(nsig)]
+    sigs = [{"name": rng.choice(names), "width": rng.choice([1, 2, 4, 8]),
+             "attrs": rng.choice([None, None, None, {"keep": 1}, {"mark_debug": "true", "keep": 1}])} for _ in range(nsig)]
     ndom = rng.randint(2, 5)
     doms = rng.sample(DOMS, ndom)
     free = list(range(nsig))
@@ -69,9 +70,13 @@ def gen_recipe(rng):
                 dom, pool = "comb", readable
             else:
                 dom, pool = rng.choice(doms), list(range(nsig))
-            m["stmts"].append({"dom": dom, "lhs": tgt,
-                               "op": rng.choice(["+", "^", "&", "mux", "cat"]),
-                               "a": rng.choice(pool), "b": rng.choice(pool)})
+            st = {"dom": dom, "lhs": tgt, "op": rng.choice(["+", "^", "&", "mux", "cat"]),
+                  "a": rng.choice(pool), "b": rng.choice(pool)}
+            same = [i for i in pool if i != tgt and sigs[i]["width"] == sigs[tgt]["width"]]
+            if dom == "comb" and same and rng.random() < 0.5:
+                # a plain copy: two named signals (possibly both with attributes) end up on the same nets
+                st["op"], st["a"] = "copy", rng.choice(same)
+            m["stmts"].append(st)
         if rng.random() < 0.3:
             m["fsm"] = {"dom": rng.choice(doms), "go": rng.choice(readable), "n": rng.randint(2, 4),
                         "name": rng.choice(["fsm", "x", None])}
@@ -96,7 +101,7 @@ def build_recipe(recipe):
     from amaranth.hdl import Module, Signal, Cat, Mux, Elaboratable
     from amaranth.lib.memory import Memory
     from amaranth.lib import fifo, cdc
-    sigs = [Signal(s["width"], name=s["name"]) for s in recipe["sigs"]]
+    sigs = [Signal(s["width"], name=s["name"], attrs=dict(s["attrs"]) if s.get("attrs") else None) for s in recipe["sigs"]]
     lib_ports = []
 
     def mk(spec):
@@ -106,7 +111,7 @@ def build_recipe(recipe):
             m.domains += ClockDomain(spec["local"], local=True)
         for st in spec["stmts"]:
             a, b = sigs[st["a"]], sigs[st["b"]]
-            rhs = {"+": a + b, "^": a ^ b, "&": a & b, "mux": Mux(a[0], b, a), "cat": Cat(a, b)}[st["op"]]
+            rhs = {"+": a + b, "^": a ^ b, "&": a & b, "mux": Mux(a[0], b, a), "cat": Cat(a, b), "copy": a}[st["op"]]
             m.d[st["dom"]] += sigs[st["lhs"]].eq(rhs)
         f = spec["fsm"]
         if f:
@@ -178,12 +183,15 @@ def convert_digest(recipe, again=False):
         top, ports = B.top, list(B.sigs)
     else:
         top, ports = build_recipe(recipe)
+    before = [dict(p.attrs) for p in ports if hasattr(p, "attrs")]
     text = rtlil.convert(top, ports=ports)
     if again:
         # the very same object once more: elaboration must not leave anything behind that changes the result
         text2 = rtlil.convert(top, ports=ports)
         if text2 != text:
             return "SAME-OBJECT-DIFFERS", text
+        if before != [dict(p.attrs) for p in ports if hasattr(p, "attrs")]:
+            return "SAME-OBJECT-DIFFERS", "conversion changed the attributes of the design's own signals"
     return hashlib.sha256(text.encode()).hexdigest(), text
 
 
@@ -234,6 +242,14 @@ def prepare_plan(case):
         out = Signal(name="sink_out")
         if sink:
             m.d.comb += out.eq(Cat(*sink).xor())
+        if case.get("internal_clock"):
+            # a clock constraint on an internal net of a submodule: the constraint file names it by its hierarchical path
+            from amaranth.hdl import Period
+            sub = Module()
+            slow = Signal(name="slow_clk")
+            sub.d.comb += slow.eq(~out)
+            m.submodules.divider = sub
+            plat.add_clock_constraint(slow, Period(MHz=case["internal_clock"]))
         plan = plat.build(m, do_build=False)
     return plan, ext
 
@@ -371,8 +387,19 @@ def gen_restart(cfg, wl, fl, tier):
     resets = [fl.randint(0, 40)]
     if fl.random() < 0.4:
         resets.append(fl.randint(0, 20))
-    return {"kind": "restart", "design": design, "tbs": tbs, "bg": bg, "proc": proc, "steps": [{"reset_after": k} for k in resets],
+    rsteps = [{"reset_after": k} for k in resets]
+    if fl.random() < 0.35:
+        # crash: a user process dies in the middle of a delta cycle (often that of a clock edge) right after writing a
+        # memory row and an input signal; reset() must wipe all of it
+        t = fl.choice([fl.randint(0, 3 * maxp), p1 * fl.randint(0, 4) + (design["clocks"]["sync"]["phase"] or 0),
+                       p2 * fl.randint(0, 4) + (design["clocks"]["other"]["phase"] or 0)])
+        rsteps.insert(fl.randint(0, len(rsteps)), {"reset_after": 0, "crash_fs": t, "row": fl.randrange(depth)})
+    return {"kind": "restart", "design": design, "tbs": tbs, "bg": bg, "proc": proc, "steps": rsteps,
             "sched": {"mode": fl.choice(["seeded", "insertion", "reverse"]), "seed": fl.randrange(1 << 32)}}
+
+
+class CrashInjected(Exception):
+    pass
 
 
 def build_restart_design(d):
@@ -517,6 +544,18 @@ def simulate_restart(case, stats, mode=None):
                     ctx.set(dut.flag2, (av ^ 5) & 15)
             sim.add_process(comb_process)
 
+        armed = [None]
+
+        async def crasher(ctx):
+            st = armed[0]
+            if st is None:
+                return
+            await ctx.delay(Period(fs=st["crash_fs"]))
+            ctx.set(dut.mem.data[st["row"] % d["depth"]], 9)
+            ctx.set(dut.go, 1)
+            raise CrashInjected()
+        sim.add_process(crasher)
+
         sim.run()
         T = list(log)
         end_fs = sim._engine.now
@@ -529,6 +568,14 @@ def simulate_restart(case, stats, mode=None):
             k = st["reset_after"]
             did = 0
             alive = True
+            if st.get("crash_fs") is not None:
+                armed[0] = st
+                try:
+                    sim.run()
+                except CrashInjected:
+                    P["crash_mid_delta"] = P.get("crash_mid_delta", 0) + 1
+                    stats["faults"]["crash"] = stats["faults"].get("crash", 0) + 1
+                armed[0] = None
             while did < k and alive:
                 alive = sim.advance()
                 did += 1
@@ -596,7 +643,7 @@ def run_plan(case, res, dig, stats):
     # ... and in a fresh interpreter with another string-hash seed
     hs = 1 + (case.get("hashseed", 4242) % 99999)
     env = dict(os.environ, PYTHONHASHSEED=str(hs), PYTHONDONTWRITEBYTECODE="1", PYTHONPATH=REPO + os.pathsep + VERIF)
-    pc = {"config": case["config"], "steps": case["steps"]}
+    pc = {"config": case["config"], "steps": case["steps"], "internal_clock": case.get("internal_clock")}
     pr = subprocess.run([sys.executable, os.path.join(VERIF, "check.py"), "--c09-worker"],
                         input=json.dumps([{"plan_case": pc}]), capture_output=True, text=True, env=env, timeout=600)
     ds = [l[2:] for l in pr.stdout.splitlines() if l.startswith("D ")]
@@ -699,7 +746,8 @@ def gen_case_i(seed, tier, index):
         return gen_restart(cfg, wl, fl, tier)
     from props import c19
     c = c19.gen_case(seed, tier)
-    return {"kind": "plan", "config": c["config"], "steps": [op for op in c["steps"]], "hashseed": fl.randrange(1, 99999)}
+    return {"kind": "plan", "config": c["config"], "steps": [op for op in c["steps"]], "hashseed": fl.randrange(1, 99999),
+            "internal_clock": fl.choice([0, 6, 25])}
 
 
 def gen_case(seed, tier):
